@@ -135,14 +135,25 @@ func builtinObjectDefineProperties(call FunctionCall) Value {
 		panic(call.runtime.panicTypeError("Object.DefineProperties is nil"))
 	}
 
-	properties := call.runtime.toObject(call.Argument(1))
-	properties.enumerate(false, func(name string) bool {
-		descriptor := toPropertyDescriptor(call.runtime, properties.get(name))
-		obj.defineOwnProperty(name, descriptor, true)
-		return true
-	})
+	objectDefineProperties(call.runtime, obj, call.Argument(1))
 
 	return val
+}
+
+// objectDefineProperties is 15.2.3.7 steps 2-6: every descriptor is converted
+// before the first property is defined.
+func objectDefineProperties(rt *runtime, obj *object, propertiesValue Value) {
+	properties := rt.toObject(propertiesValue)
+	var names []string
+	var descriptors []property
+	properties.enumerate(false, func(name string) bool {
+		names = append(names, name)
+		descriptors = append(descriptors, toPropertyDescriptor(rt, properties.get(name)))
+		return true
+	})
+	for index, name := range names {
+		obj.defineOwnProperty(name, descriptors[index], true)
+	}
 }
 
 func builtinObjectCreate(call FunctionCall) Value {
@@ -156,12 +167,7 @@ func builtinObjectCreate(call FunctionCall) Value {
 
 	propertiesValue := call.Argument(1)
 	if propertiesValue.IsDefined() {
-		properties := call.runtime.toObject(propertiesValue)
-		properties.enumerate(false, func(name string) bool {
-			descriptor := toPropertyDescriptor(call.runtime, properties.get(name))
-			obj.defineOwnProperty(name, descriptor, true)
-			return true
-		})
+		objectDefineProperties(call.runtime, obj, propertiesValue)
 	}
 
 	return objectValue(obj)
